@@ -1,7 +1,7 @@
 (* Correspondence for C04: run Model/Transforms.v on the inputs given to the implementation (plus the recorded
    oracle answers) and compare with the implementation's outputs: bit-exact on Z, toleranced on Q. *)
 From Coq Require Import List Arith ZArith QArith Qabs Qround Bool.
-From TLV Require Import Base.Shape Base.PyList Base.Tensor Base.Ops Model.Transforms Model.TransformsApi Model.TransformsHeap Corr.Common.
+From TLV Require Import Base.Shape Base.PyList Base.Tensor Base.Ops Model.Transforms Model.TransformsApi Model.TransformsHeap Model.TransformsCplx Model.TransformsRT Model.TransformsTkObj Corr.Common.
 Import ListNotations.
 
 Fixpoint list_eqb {A} (eqb : A -> A -> bool) (a b : list A) : bool :=
@@ -121,6 +121,25 @@ Definition qobj_close (o : cp_obj (F:=Q)) (e : list nat * (list Q * list (mat Q)
 Definition owned_any {F} (h' : heap (F:=F)) (objs : list nat) (n : nat) : list bool :=
   map (fun i => existsb (fun o => existsb (Nat.eqb i) (owned h' o)) objs) (seq 0%nat n).
 
+(* ---- round 7: complex-valued cores (Gaussian integers, Model/TransformsCplx.v); the compress -> fit -> decompress pipeline on
+   slice lists of mixed heights (Model/TransformsRT.v) *)
+Definition g_eqb (a b : Z * Z) : bool := Z.eqb (fst a) (fst b) && Z.eqb (snd a) (snd b).
+Definition gt_eqb (a b : tensor (Z * Z)) : bool := nat_list_eqb (shape a) (shape b) && list_eqb g_eqb (data a) (data b).
+Definition gts_eqb : list (tensor (Z * Z)) -> list (tensor (Z * Z)) -> bool := list_eqb gt_eqb.
+Definition g_dense (ring : bool) (cores : list (tensor (Z * Z))) : tensor (Z * Z) :=
+  if ring then tr_to_tensor Gops cores else tt_to_tensor Gops cores.
+Definition order3b {F} (cores : list (tensor F)) : bool := forallb (fun G => Nat.eqb (length (shape G)) 3) cores.
+
+(* TuckerTensor objects on the heap (Model/TransformsTkObj.v): the harness's object is cell 0 of the heap built from its core, arrays and list *)
+Definition tk_obs (F : Type) := (list nat * list nat * (tensor F * list (mat F)))%type.      (* shape attribute, rank attribute, (core, factors) held *)
+Definition tk_observe {F} (th : theap (F:=F)) (cells : list tcell) (o : nat) : tk_obs F :=
+  (tc_shape (tcellr cells o), tc_rank (tcellr cells o), tobj_read th cells o).
+Definition ztk_struct_eqb (a b : tensor Z * list (mat Z)) : bool := zt_eqb (fst a) (fst b) && list_eqb zmat_eqb (snd a) (snd b).
+Definition zobs_eqb (cmp : tensor Z * list (mat Z) -> tensor Z * list (mat Z) -> bool) (a b : tk_obs Z) : bool :=
+  nat_list_eqb (fst (fst a)) (fst (fst b)) && nat_list_eqb (snd (fst a)) (snd (fst b)) && cmp (snd a) (snd b).
+Definition qobs_close (a b : tk_obs Q) : bool :=
+  nat_list_eqb (fst (fst a)) (fst (fst b)) && nat_list_eqb (snd (fst a)) (snd (fst b)) && qtk_close (snd a) (snd b).
+
 Inductive body :=
 | ZDense (w : list Z) (fs : list (mat Z)) (expected : tensor Z)
 | ZFlip (w : list Z) (fs : list (mat Z)) (mode : nat) (expected : res (list Z * list (mat Z)))
@@ -172,6 +191,14 @@ Inductive body :=
 | ZHeapStale (inplace refresh : bool) (arrs : list (mat Z)) (ls newls : list nat) (w : nat) (copy : bool) (x : operand (F:=Z)) (mode : nat) (keep_dim : bool)
              (expected : res (list nat * (list Z * list (mat Z))))
 | QTkNormBc (tape : list (list Q)) (core : tensor Q) (fs : list (mat Q)) (expected : res (list nat * list nat * (tensor Q * list (mat Q))))
+| GPad (ring : bool) (cores : list (tensor (Z * Z))) (npad : nat) (pb : bool) (expected : res (list (tensor (Z * Z))))
+| GTTDense (ring : bool) (cores : list (tensor (Z * Z))) (expected : tensor (Z * Z))
+| QRoundTrip (slices : list (mat Q)) (max_rank : option nat) (tapes : list (mat Q * list Q * mat Q)) (full : list bool)
+             (w : list Q) (A B C : mat Q) (Qs : list (mat Q)) (expected : res (list (mat Q)))
+| ZTkObjDot (core : tensor Z) (arrs : list (mat Z)) (ls : list nat) (copy : bool) (x : operand (F:=Z)) (mode : nat) (keep_dim : bool)
+            (expected : res (tk_obs Z * tk_obs Z * bool))        (* the result object, the operand object afterwards, is the operand still a valid Tucker tensor *)
+| QTkObjNorm (tape : list (list Q)) (core : tensor Q) (arrs : list (mat Q)) (ls : list nat) (expected : res (tk_obs Q))
+| ZTkObjCopy (core : tensor Z) (arrs : list (mat Z)) (ls : list nat) (expected : res (tk_obs Z)) (shares : bool)
 | QAlign (norm_t : bool) (rw : list Q) (rfs : list (mat Q)) (tw : list Q) (tfs : list (mat Q)) (tA tB : list (list Q)) (perm : list nat).
 
 Definition agree_body (b : body) : bool :=
@@ -330,6 +357,68 @@ Definition agree_body (b : body) : bool :=
       res_eqb2 (fun o e' => nat_list_eqb (tko_shape o) (fst (fst e')) && nat_list_eqb (tko_rank o) (snd (fst e')) &&
                             qtk_close (tko_core o, tko_fs o) (snd e'))
                (tucker_normalize_bc Qops tape core fs) e
+  | GPad ring cores npad pb e =>
+      (* the padded cores exactly (imaginary parts included), and the dense tensor of the implementation's answer is the operand's *)
+      res_eqb gts_eqb (pad_tt_rank Gops cores npad pb) e &&
+      match e with
+      | Ok e' => if order3b cores && order3b e' then gt_eqb (g_dense ring e') (g_dense ring cores) else true
+      | Err => true
+      end
+  | GTTDense ring cores e => gt_eqb (g_dense ring cores) e
+  | QRoundTrip slices mr tapes full w A B C Qs e =>
+      (* slice i of the decompressed tensor (the model's and the implementation's) is slice i of the data *)
+      svds_okb full slices tapes &&
+      match compress_then_decompress Qops slices 0 mr tapes w A B C Qs, e with
+      | Ok (_, _, ps), Ok e' =>
+          Nat.eqb (length e') (length slices) &&
+          list_eqb qmat_close (map (pf2_slice Qops w A B C ps) (seq 0 (length slices))) slices &&
+          list_eqb qmat_close (map (pf2_slice Qops w A B C e') (seq 0 (length slices))) slices
+      | Err, Err => true
+      | _, _ => false
+      end
+  | ZTkObjDot core arrs ls cp x m kd e =>
+      (* obj = TuckerTensor((core, [arrs[l] for l in ls])); r = obj.mode_dot(x, mode, keep_dim, copy): the result object (attributes, dense
+         tensor), what the OPERAND object names afterwards (exactly: copy=False leaves it the old core with the updated list) and whether that
+         still passes the validator *)
+      let th0 := mk_theap [core] arrs [ls] in
+      match tucker_new_h th0 [] 0 0 with
+      | Err => match e with Err => true | Ok _ => false end
+      | Ok (cells0, o) =>
+          match tucker_mode_dot_method_h Zops th0 cells0 o cp x m kd, e with
+          | Ok (th', cells', o'), Ok (er, eo, valid) =>
+              zobs_eqb ztk_dense_eqb (tk_observe th' cells' o') er && zobs_eqb ztk_struct_eqb (tk_observe th' cells' o) eo &&
+              Bool.eqb (let '(c, fs) := tobj_read th' cells' o in tucker_okb c fs) valid
+          | Err, Err => true
+          | _, _ => false
+          end
+      end
+  | QTkObjNorm tape core arrs ls e =>
+      (* obj.normalize(): in place; attributes kept, the object holds the normalised tensor *)
+      let th0 := mk_theap [core] arrs [ls] in
+      match tucker_new_h th0 [] 0%nat 0%nat with
+      | Err => match e with Err => true | Ok _ => false end
+      | Ok (cells0, o) =>
+          match tucker_normalize_method_h Qops tape th0 cells0 o, e with
+          | Ok (th', cells'), Ok eo =>
+              tk_tape_okb (shape core) tape (map (fun l => nth l arrs []) ls) && qobs_close (tk_observe th' cells' o) eo
+          | Err, Err => true
+          | _, _ => false
+          end
+      end
+  | ZTkObjCopy core arrs ls e shares =>
+      let th0 := mk_theap [core] arrs [ls] in
+      match tucker_new_h th0 [] 0 0 with
+      | Err => match e with Err => true | Ok _ => false end
+      | Ok (cells0, o) =>
+          match tucker_copy_h th0 cells0 o, e with
+          | Ok (th', cells', o'), Ok eo =>
+              zobs_eqb ztk_struct_eqb (tk_observe th' cells' o') eo &&
+              (* the copy names fresh locations only *)
+              Bool.eqb (negb ((1 <=? tc_core (tcellr cells' o')) && forallb (fun l => length arrs <=? l) (tlst th' (tc_fs (tcellr cells' o'))))) shares
+          | Err, Err => true
+          | _, _ => false
+          end
+      end
   | QAlign nt rw rfs tw tfs tA tB perm =>
       let A := norm_inputs Qops rw rfs in
       let B := if nt then norm_inputs Qops tw tfs else tfs in
